@@ -431,6 +431,25 @@ func c11(r *Run) {
 			r.Visited += ss.Visited
 			r.ob("C11.R3:would-block-is-not-an-error:"+name, "when the kernel says EAGAIN "+name+" reports (0, nil): the dispatch function treats every non-nil error of a read or send as a reason to hang the connection up", fn, nil, okAll, "the err == EAGAIN edge returns a nil error", true)
 		}
+		{
+			fn := w.MustFn("ioread")
+			eofK := w.ConstInt("ErrEOF")
+			for _, ins := range allIns(fn) {
+				if n, ok := exceptionErrno(w, ins); ok && n == eofK {
+					errNil := func(v ssa.Value) (bool, bool) {
+						b, ok := v.(*ssa.BinOp)
+						if !ok || (b.Op != token.EQL && b.Op != token.NEQ) || !isNilConst(b.Y) {
+							return false, false
+						}
+						if !types.Identical(b.X.Type(), types.Universe.Lookup("error").Type()) {
+							return false, false
+						}
+						return b.Op == token.EQL, true
+					}
+					r.guarded("C11.R3:eof-only-without-error", "ioread reports end-of-stream only for a read that returned 0 bytes AND no error: 0 bytes with EAGAIN/EINTR is 'nothing to read yet', and treating it as EOF hangs a healthy connection up", fn, ins, errNil, nil, "Exception(ErrEOF) guarded by err == nil")
+				}
+			}
+		}
 		waitFn := w.MustFn("(*defaultPoll).Wait")
 		// between the kernel filling the event array and its dispatch nothing replaces the array: growing it (Reset) there
 		// would dispatch a fresh, zeroed array and drop the batch - for edge-triggered registrations for good
